@@ -94,6 +94,32 @@ def workload(tier, seed, scale=1.0):
                     cmds.append(cmd_de_u(ws, h, ('de', 'U', nw, trail, fam, h)))
                     sb = rnd.choice((-1, 0, 1))
                     cmds.append(cmd_de_i(sb, ws, h, ('de', 'I', sb, nw, trail, fam, h)))
+    # Sign on its own
+    for sg in (-1, 0, 1):
+        def mk(sg=sg):
+            def check(res):
+                t = res.val(0)
+                if t is PANIC:
+                    return [Problem({'C17', 'C14'}, 'Sign serialize panicked', '')]
+                if t != ('tokens', ['i%d' % sg]) or res.val(1) is not True:
+                    return [Problem('C17', 'Sign does not serialize as the i8 -1/0/1', repr(t))]
+                return []
+            return Cmd('sersign %d' % sg, check, cell=('sersign', sg), prop='C17')
+        cmds.append(mk())
+    for sb in range(-128, 128):
+        def mk(sb=sb):
+            def check(res):
+                got = res.val(0)
+                if got is PANIC:
+                    return [Problem({'C17', 'C14'}, 'Sign deserialize panicked', '')]
+                if sb in (-1, 0, 1):
+                    if got != sb:
+                        return [Problem('C17', 'Sign deserialize: wrong sign', 'got=%r want=%d' % (got, sb))]
+                elif not isinstance(got, Err):
+                    return [Problem('C17', 'Sign deserialize accepted an invalid sign value', 'byte=%d got=%r' % (sb, got))]
+                return []
+            return Cmd('designs %d' % sb, check, cell=('designs', sb if -2 <= sb <= 2 else 'other'), prop='C17')
+        cmds.append(mk())
     # every sign byte x zero / non-zero magnitude
     for sb in range(-128, 128):
         for ws in ([], [0], [0, 0, 0], [1], [0, 0, 1, 0, 0], [rnd.getrandbits(32) | 1, rnd.getrandbits(32)]):
